@@ -196,7 +196,7 @@ func c02HuffBits(s []byte) int {
 func c02HuffDecode(v []byte) (out []byte, why string) {
 	out = []byte{}
 	cur := int32(0)
-	pend := 0      // bits consumed since the last complete symbol
+	pend := 0       // bits consumed since the last complete symbol
 	allOnes := true // those bits are all ones
 	for _, b := range v {
 		for i := 7; i >= 0; i-- {
@@ -486,10 +486,10 @@ func (r *c02Ref) at(i uint64, sat bool) (c02Field, bool) {
 
 type c02Result struct {
 	Fields    []c02Field
-	Err       string // "" = the block is valid per RFC 7541
-	ErrKind   string // truncated | index | huffman | update
-	Truncated bool   // only defect: the last representation is incomplete
-	Consumed  int    // bytes of representations processed successfully
+	Err       string   // "" = the block is valid per RFC 7541
+	ErrKind   string   // truncated | index | huffman | update
+	Truncated bool     // only defect: the last representation is incomplete
+	Consumed  int      // bytes of representations processed successfully
 	May       []string // documented implementation restrictions the block runs into
 	Spans     []c02Span
 	Huffman   int // Huffman strings decoded
